@@ -50,6 +50,18 @@ HISTORY = {
     'C03r2-B': ('missed', 'same change as C01r2-A'),
     'C04r2-A': ('caught', 'R-match-writes existed'),
     'C04r2-B': ('missed', 'same change as C01r2-A'),
+    'C02r2-A': ('caught', 'R-disposition (FastQueue refuses before inserting) existed'),
+    'C02r2-B': ('caught', 'R-majority population check existed (same change as C04-B, delivered independently)'),
+    'C06r2-A': ('missed', 'new rule R-commit-persisted-value'),
+    'C06r2-B': ('missed', 'R-dump-atomic extended: writers must use distinct temporary names'),
+    'C09r2-A': ('caught', 'R-dump-before-trim existed (same change as C06-A, delivered independently); now also listed under C09'),
+    'C09r2-B': ('missed', 'R-dump-atomic extended: a chunk flagged first always restarts the reassembly'),
+    'C10r2-A': ('analysis-error', 'pending-marker detection required the refusal directly under the None test; generalised, after which the existing "both gates dominate the mutation" clause reports it'),
+    'C10r2-B': ('caught', 'R-apply-on-append existed'),
+    'C11r2-A': ('caught', 'R-bounded-write existed'),
+    'C11r2-B': ('missed', 'R-chunk-length extended: the chunked bytes must be pickled from the entry fetched in this pass'),
+    'C14-A': ('missed', 'new rule R-silent-timeout'),
+    'C15-B': ('missed', 'R-cmd-shapes extended: shape selection evaluated for empty/non-empty args x kwargs; listed under C15'),
 }
 
 
